@@ -9,21 +9,24 @@ sys.path.insert(0, os.path.join(V, "lib"))
 
 CLAIMED = {
     "C01": dict(
-        technique="Lean 4 theorem (invariant by induction over operation histories) + differential correspondence (hist engine) + Lean-spec judge",
+        technique="Lean 4 theorem (invariant by induction over operation histories) + check kernel regenerated from the Go source by a translator and proved equal to the model + differential correspondence (hist engine, concurrent cross-soak) + Lean-spec judge",
         text="Theorems C01_monotone / C01 (Dirk/Props/C01.lean): for every configuration, pre-existing store, finite history of "
              "signing operations (single/batch, by name/key, duplicate keys, any epochs/domains, fetch/store/sign faults with the "
              "failed write landed or not, restarts) and key, released attestations are strictly increasing in target and "
              "non-decreasing in source, hence pairwise non-slashable. Proved for all inputs by Lean's kernel. The model is tied to "
              "/repo on every run by executing the same generated histories on the real signer+ruler+rules(badger) stack and on "
-             "the model and diffing verdicts and exports; released signatures are judged by the Lean Slashable predicate.",
+             "the model and diffing verdicts and exports; released signatures are judged by the Lean Slashable predicate. "
+             "C01_kernel_is_source: the model's check function equals, for all inputs, the Lean function factx translates on every "
+             "run from the current Go source of runSignBeaconAttestationChecks.",
         note="Trusted: Lean kernel, propext/Classical.choice/Quot.sound; the correspondence check (harness, generators, driver); "
              "badger atomicity of Update/WriteBatch; BLS/wallet libraries. Modelled not verified: Go runtime, badger, wallets.",
         ref="DESIGN.md §6 C01"),
     "C02": dict(
-        technique="Lean 4 theorem (invariant by induction over operation histories) + differential correspondence (hist engine) + Lean-spec judge",
+        technique="Lean 4 theorem (invariant by induction over operation histories) + rule kernel regenerated from the Go source by a translator and proved equal to the model + differential correspondence (hist engine, concurrent cross-soak) + Lean-spec judge",
         text="Theorems C02_increasing / C02 (Dirk/Props/C02.lean): for every configuration, store, history and key the slots of "
              "released proposal signatures are strictly increasing, so no two proposals share a slot. Kernel-checked for all "
-             "inputs; model tied to /repo by the hist-engine correspondence and judged on the implementation's own output.",
+             "inputs; model tied to /repo by the hist-engine correspondence and judged on the implementation's own output. "
+             "C02_kernel_is_source: onPropose equals the function translated on every run from the Go source of OnSignBeaconProposal, applied to the model store.",
         note="Trusted: Lean kernel and the three standard axioms; correspondence check; badger Update atomicity.",
         ref="DESIGN.md §6 C02"),
     "C05": dict(
@@ -32,7 +35,9 @@ CLAIMED = {
              "listed non-empty source), C05_attest_only_attester / C05_propose_only_proposer (other domain types refused, store "
              "untouched) and C05_logs (in every reachable state every released attestation/proposal signature carries its own "
              "domain type), for all domains, data, admin lists and sources. Tied to /repo by domain-focused histories through the "
-             "real signer; every released signature is judged by the Lean predicate.",
+             "real signer; every released signature is judged by the Lean predicate, BLS-verified over the model's signing root for its own "
+             "domain and required not to verify under attester/proposer-typed domains. C05_kernel_is_source: onSign equals the function "
+             "translated on every run from the Go source of OnSign.",
         note="Trusted: Lean kernel + 3 standard axioms; correspondence check; domain-type constants come from go-eth2-types and are validated by the engine, not regenerated.",
         ref="DESIGN.md §6 C05"),
     "C06": dict(
@@ -45,14 +50,17 @@ CLAIMED = {
         note="Trusted: Lean kernel + 3 axioms; fault injection points are the verif hooks (Store.Fetch/Store/BatchStore entry, after-store, signRoot); handler-level mapping is covered by C20's wire engine.",
         ref="DESIGN.md §6 C06"),
     "C07": dict(
-        technique="Lean 4 theorems (nested-loop Check == first-bearing-item specification; refused requests are no-ops) + differential correspondence against checker/static with a regex model + Lean-spec judge",
-        text="Theorem C07_scan_eq_spec: Check's loops with early return equal 'first bearing item of the flattened operation lists of "
+        technique="Lean 4 refinement theorem (Check == specification firstBearing for every accepted configuration and request, incl. a verified derivative regex matcher and the anchoring lemma) + differential correspondence against checker/static + Lean-spec judge",
+        text="Theorem C07_check_refines_spec (Dirk/Props/C07Refine.lean): for every configuration checker/static accepts and every client, account and "
+             "operation, Check answers exactly Spec.firstBearing (entries in order, whole-name case-insensitive matching, first bearing item decides, default "
+             "deny); it rests on Re.matchFrom_iff / Re.search_anchored (the derivative matcher is correct w.r.t. a positional semantics and a search for "
+             "^(?:p)$ is a whole-name match of p). Theorem C07_scan_eq_spec: Check's loops with early return equal 'first bearing item of the flattened operation lists of "
              "matching entries, default deny' for all compiled configurations; C07_unknown_client/_no_identity/_default_deny; "
              "C07_refused_no_effect_*: a refused signing request returns no signature and leaves store and logs untouched; "
              "C07_resolved_account: the decision is taken on the canonical name of the resolved account. The whole-name, "
              "case-insensitive matching of patterns (regexify + Go regexp) is modelled (RE2 fragment, derivative matcher) and tied "
              "by ~15k generated (configuration, probe) decisions per quick run, each judged by the Lean specification firstBearing.",
-        note="Partial for one link: 'anchored search == whole-name match' is carried by the correspondence and judge, not by a theorem. Go regexp outside the modelled fragment and Unicode folding are not covered. main.go's map-ordered entry list is out of scope (the ordered list given to the checker is what is modelled).",
+        note="One hypothesis about the string-level regex parser (regexify's output parses to the anchored shape around the parse of the pattern, ShapeOK) is not proved; the driver evaluates it for every pattern in use. Go regexp outside the modelled fragment and Unicode folding are not covered. main.go's map-ordered entry list is out of scope (the ordered list given to the checker is what is modelled).",
         ref="DESIGN.md §6 C07"),
     "C08": dict(
         technique="Lean 4 theorems (batch alignment, what-is-signed, injectivity of SSZ chunks) + real BLS verification of real signatures against the Lean model's SHA-256/SSZ signing roots",
@@ -125,7 +133,8 @@ CLAIMED = {
         technique="Lean 4 + Mathlib theorems over an arbitrary field/module (Feldman VSS consistency, Lagrange recovery, fewer-than-t failure, order independence, parameter bounds) + protocol model + differential dkg engine over real process instances + Lean-driver Lagrange recovery over Z_r from extracted shares",
         text="Partial (crypto library assumed). Theorems C12_share_consistent, C12_same_key, C12_recover (any t ids recover the group "
              "secret applied to any point), C12_fewer_fail, C12_bounds (accepted iff 1<=n, n<2t, t<=n with the code's integer "
-             "division), C12_protocol_success. Tie: n real process/standard instances joined through the real receiver handlers; "
+             "division), C12_protocol_success, C12_generation_succeeds (message-level cluster model: on a fresh cluster every Prepare, "
+             "every Execute in ANY order and every Commit is accepted and all participants end holding the account). Tie: n real process/standard instances joined through the real receiver handlers; "
              "all (n,t) incl. every t outside the range, id sets small/sparse/near 2^64, different initiators, delayed and tampered "
              "commit replies; on success the relation vector the theorems name is checked with the BLS library (same composite "
              "key/vector/threshold/participants, share vs vector, every t-subset recovers, no (t-1)-subset does, immediate sign+list) "
@@ -162,14 +171,17 @@ CLAIMED = {
     "C17": dict(
         technique="Lean 4 theorems on the session state machine (one-per-name lifecycle, commit completeness, independence of names) + differential life engine with real timeouts + Lean judge on commit completeness",
         text="Theorems C17_prepare_twice, C17_requires_active, C17_gone_after (commit/abort/timeout), C17_restart_allowed, "
-             "C17_commit_complete (a successful commit implies every listed participant contributed), C17_independent_names. Tie: "
+             "C17_commit_complete (a successful commit implies every listed participant contributed), C17_independent_names, "
+             "C17_lifecycle_all_histories (for EVERY event sequence the reply-level lifecycle judge Spec.Life is silent on the model). Tie: "
              "hand-written and seeded event sequences over two account names on real instances with a 3 s generation timeout and real "
-             "sleeps; reply classes and account presence diffed with the model; every successful commit judged on the model state.",
+             "sleeps, staggered expiries and simultaneous prepares; reply classes and account presence diffed with the model; every successful commit "
+             "judged on the model state and every reply judged by Spec.Life on the implementation's output alone.",
         note="Event sequences are restricted to those whose outcome does not depend on Go's map iteration order. The model clock advances only by explicit sleeps (chosen far from the timeout).",
         ref="DESIGN.md §6 C17", engine="lean+dkg"),
     "C18": dict(
         technique="Lean 4 theorems (membership characterisation of the listing: sound, complete, own fields, dynamic creation) + differential list engine + Lean-spec judge with whole-name matching",
-        text="Theorems mem_listAccounts / C18_sound / C18_complete / C18_fields / C18_dynamic over the lister model for all populations, "
+        text="Theorems mem_listAccounts / C18_sound / C18_complete / C18_complete_whole_name (every accessible account whose WHOLE name matches a "
+             "requested pattern is listed, although the lister anchors the pattern as a string without grouping: C18_anchor_only_widens) / C18_fields / C18_dynamic over the lister model for all populations, "
              "permission configurations, clients and path lists. Tie: generated wallet/account populations, per-account permission "
              "tables, path lists (wallet only, regex, trailing slash, unknown, case variants, malformed, duplicates), listings before "
              "and after accounts created through dirk; result multisets diffed with the model and judged sound/complete by the Lean "
